@@ -88,8 +88,9 @@ def mapHttpMethods (combined : List Method) (attrs : List Attr) (suffix : Option
 def mkMethodMap (rid : Nat) (combined : List Method) (attrs : List Attr) (suffix : Option String) : MethodMap :=
   { rid := rid, impl := mapHttpMethods combined attrs suffix, combined := combined }
 
-/-- keyword arguments handed to the responder -/
-abbrev Kw := List (String × String)
+/-- keyword arguments handed to the responder: name ↦ value, where the value of a sink's named group that did not
+    participate in the match is Python's `None` (`Option.none`); template fields are always `some` text -/
+abbrev Kw := List (String × Option String)
 
 /-- the `params` element of `_get_responder`'s result: `fields` is what the router extracted for the matched template,
     `groups id` is `m.groupdict()` of sink `id` for this path -/
@@ -104,5 +105,27 @@ def App.getParams (a : App) (fields : Option Kw) (hits : Kind × Nat → Bool) (
 /-- `App.__call__` up to the choice of the responder: a meta method used as HTTP method is answered 400 before routing -/
 def App.dispatchHttp (a : App) (route : Option MethodMap) (method : Method) (hits : Kind × Nat → Bool) : Responder :=
   if metaMethods.contains method then .badRequest else a.getResponder route method hits
+
+/-! ### additions of the strengthening round: the match object of a sink prefix, the constructor default -/
+
+/-- what `prefix.match(path)` returned for one sink. `groupindex` is `re.Pattern.groupindex` — the named groups of the
+    *pattern* (name ↦ group number), whether or not they took part in this match; `group i` is `m.group(i)`: the text the
+    i-th group matched, `none` (Python `None`) when the group did not participate (an optional group, a group in the
+    other branch of an alternation, a group nested in one of those). -/
+structure Match where
+  groupindex : List (String × Nat)
+  group : Nat → Option String
+
+/-- `re.Match.groupdict()` (default `None`): every named group of the pattern, participating or not -/
+def Match.groupdict (m : Match) : Kw := m.groupindex.map fun (n, i) => (n, m.group i)
+
+/-- `_get_responder`'s `params` with the sink table given as match objects: `params = m.groupdict()` for the chosen sink -/
+def App.getParamsM (a : App) (fields : Option Kw) (hits : Kind × Nat → Bool) (mtab : Nat → Match) : Kw :=
+  a.getParams fields hits fun id => (mtab id).groupdict
+
+/-- `App.__init__` as far as dispatch is concerned: `sink_before_static_route: bool = True`, no sinks, no static routes,
+    empty search order. `falcon.API.__init__(*args, **kwargs)` and `falcon.asgi.App.__init__` (which forwards all eight
+    options positionally) reduce to the same call; `none` = the option was not given. -/
+def App.init (sinkBeforeStaticRoute : Option Bool) : App := { sinkFirst := sinkBeforeStaticRoute.getD true }
 
 end Dp
